@@ -6,17 +6,21 @@ package pc
 
 import (
 	"context"
+	"encoding/json"
 	"errors"
 	"fmt"
 	"net/http"
+	"net/http/httptest"
 	"runtime"
 	"strconv"
 	"strings"
+	"sync"
 	"sync/atomic"
 	"time"
 
 	"github.com/ipni/go-libipni/apierror"
 	"github.com/ipni/go-libipni/find/model"
+	"github.com/ipni/go-libipni/pcache"
 	"github.com/libp2p/go-libp2p/core/peer"
 	"github.com/multiformats/go-multiaddr"
 
@@ -70,6 +74,12 @@ type sim struct {
 type source struct {
 	sim *sim
 	idx int
+	// via, when set, is the library's own HTTP provider source pointed at a server of the harness: the gate decides when and
+	// what, the answer then travels through the real source (request, status handling, JSON decoding)
+	via  pcache.ProviderSource
+	srv  *httptest.Server
+	mu   sync.Mutex
+	next reply
 }
 
 func (s *source) FetchAll(ctx context.Context) ([]*model.ProviderInfo, error) {
@@ -77,7 +87,13 @@ func (s *source) FetchAll(ctx context.Context) ([]*model.ProviderInfo, error) {
 	c := &call{src: s.idx, all: true, ctx: ctx, reply: make(chan reply, 1), gid: goid()}
 	s.sim.arrive <- c
 	r := <-c.reply
-	return r.infos, r.err
+	if s.via == nil || errors.Is(r.err, context.Canceled) {
+		return r.infos, r.err
+	}
+	s.mu.Lock()
+	s.next = r
+	s.mu.Unlock()
+	return s.via.FetchAll(ctx)
 }
 
 func (s *source) Fetch(ctx context.Context, pid peer.ID) (*model.ProviderInfo, error) {
@@ -85,7 +101,40 @@ func (s *source) Fetch(ctx context.Context, pid peer.ID) (*model.ProviderInfo, e
 	c := &call{src: s.idx, pid: pid, ctx: ctx, reply: make(chan reply, 1), gid: goid()}
 	s.sim.arrive <- c
 	r := <-c.reply
-	return r.info, r.err
+	if s.via == nil || errors.Is(r.err, context.Canceled) {
+		return r.info, r.err
+	}
+	s.mu.Lock()
+	s.next = r
+	s.mu.Unlock()
+	return s.via.Fetch(ctx, pid)
+}
+
+// serveHTTP starts the server behind an HTTP-backed source: it answers with what the gate released.
+func (s *source) serveHTTP() error {
+	s.srv = httptest.NewServer(http.HandlerFunc(func(w http.ResponseWriter, req *http.Request) {
+		s.mu.Lock()
+		r := s.next
+		s.mu.Unlock()
+		var apiErr *apierror.Error
+		switch {
+		case errors.As(r.err, &apiErr):
+			http.Error(w, string(apierror.EncodeError(apiErr)), apiErr.Status())
+		case r.err != nil:
+			http.Error(w, r.err.Error(), http.StatusInternalServerError)
+		case strings.HasSuffix(req.URL.Path, "/providers"):
+			infos := r.infos
+			if infos == nil {
+				infos = []*model.ProviderInfo{}
+			}
+			json.NewEncoder(w).Encode(infos)
+		default:
+			json.NewEncoder(w).Encode(r.info)
+		}
+	}))
+	var err error
+	s.via, err = pcache.NewHTTPSource(s.srv.URL, nil)
+	return err
 }
 
 func (s *source) String() string { return "sim-source-" + strconv.Itoa(s.idx) }
